@@ -82,7 +82,7 @@ pub fn arm_fault(k: i64, mask: i64) {
 
 pub fn disarm_fault() -> (i64, bool) {
     FAULT_AT.store(-1, SeqCst);
-    (TICKS.load(SeqCst), FAULT_FIRED.load(SeqCst))
+    (TICKS.swap(0, SeqCst), FAULT_FIRED.swap(false, SeqCst))
 }
 
 pub fn tick(kind: i64, name: &str) {
